@@ -34,6 +34,22 @@ Theorem C10_inside_meaning : forall d p : str,
 Proof. exact inside_spec. Qed.
 Print Assumptions C10_inside_meaning.
 
+(** [npath] really is a normal form: some ".." (none for an absolute path)
+    followed by slash-free components other than "", ".", ".."; and
+    re-normalising the text posixpath.normpath returns changes nothing. *)
+Theorem C10_normal_form : forall x : str,
+  exists k rest,
+    snd (npath x) = repeat dotdot k ++ rest /\
+    (Nat.ltb 0 (fst (npath x)) = true -> k = 0) /\
+    Forall (fun c => ~ In SLASH c /\ c <> [] /\ c <> dot /\ c <> dotdot) rest.
+Proof. exact npath_normal. Qed.
+Print Assumptions C10_normal_form.
+
+Theorem C10_normalisation_idempotent : forall x : str,
+  npath (normpath x) = npath x /\ normpath (normpath x) = normpath x.
+Proof. exact normpath_idem. Qed.
+Print Assumptions C10_normalisation_idempotent.
+
 (** Appending a slash-free component other than "", ".", ".." to ANY path
     appends exactly that component to its normal form. *)
 Theorem C10_join_normal_form : forall a b : str,
